@@ -3,6 +3,10 @@
 S = "internal/server"
 
 CHECKS = {
+    "C03": {"level": "model_checking",
+            "parts": [{"pkg": S, "check": "c03", "shards": 16, "gomaxprocs": 2}],
+            "quick": {"budget_s": 100, "params": {"depth": 3}},
+            "thorough": {"budget_s": 900, "params": {"depth": 4}}},
     "C19": {"level": "model_checking",
             "parts": [{"pkg": S, "check": "c19", "shards": 16, "gomaxprocs": 2}],
             "quick": {"budget_s": 100, "params": {"depth": 3}},
